@@ -47,6 +47,7 @@ RULE += (' Also: an ended scope context cannot be entered a second time.')
 RULE += (' Also: the handle zipped with a class iterator that has nothing to close; a set built from a chain whose first element is unhashable.')
 RULE += (' Also: the handle merged after a source that compares equal to everything.')
 RULE += (' Also: min / max without a key meeting an item they cannot compare (they stop there; the rest stays on the handle).')
+RULE += (' Also: a transient failure of the underlying iterator met by a tool reading through the handle (the tool, closed, has closed the handle).')
 RULE += (' Also: the handle merged between empty inputs and inputs that end early (closed with the tool at every stopping point).')
 ASSUMPTIONS = ["laziness of the tools themselves is C05's concern; here the stdlib twin predicts how many items a tool takes",
                "athrow on a LIVE handle is not part of the property's operation list and is not generated; athrow on a closed handle is"]
@@ -350,7 +351,7 @@ def gen_history(rng, maxops=12):
             ops.append(["reborrow", rng.choice([-1, h])])
             nh += 1
         elif r < 0.635:
-            ops.append(["fault_then_close", h, rng.choice(["aclose", "aclose_iter"])])
+            ops.append(["fault_then_close", h, rng.choice(["aclose", "aclose_iter", "tool:zip_longest3", "tool:zip", "tool:map2_first", "tool:chain_mid", "tool:merge2", "tool:compress_sel"])])
         elif r < 0.66:
             # a scope context CREATED over the live handle, which is then closed before the context is entered
             ops.append(["scope_late", h, rng.choice(["aclose", "aclose_iter"])])
@@ -603,8 +604,14 @@ def run_history(case, stats, scoped=None):
                     continue
                 boom = RuntimeError("transient failure of the underlying iterator")
                 st.plan = Plan(st.plan.susp, st.uses + 1, boom)
+                via_tool = None
+                if op[2].startswith("tool:"):
+                    # ... the failure happens while a TOOL reads through the handle; the tool is closed afterwards and
+                    # has closed the handle it was given, like a tool that ended any other way
+                    via_tool = TOOLS[op[2][5:]][1](handles[h])
+                    counters["tools_met_a_transient_failure"] += 1
                 try:
-                    await handles[h].__anext__()
+                    await (via_tool if via_tool is not None else handles[h]).__anext__()
                 except RuntimeError as exc:
                     if exc is not boom:
                         fail("borrow/handle-sequence", f"op {n} {op}: the underlying iterator's failure came out as {exc!r}")
@@ -615,7 +622,7 @@ def run_history(case, stats, scoped=None):
                     pass
                 st.plan = Plan(st.plan.susp)
                 try:
-                    await (handles[h].aclose() if op[2] == "aclose" else A.iter(handles[h]).aclose())
+                    await (via_tool.aclose() if via_tool is not None else handles[h].aclose() if op[2] == "aclose" else A.iter(handles[h]).aclose())
                 except BaseException as exc:  # noqa: BLE001
                     fail("borrow/aclose-raises", f"op {n} {op}: {type(exc).__name__}: {exc}")
                     return
